@@ -499,18 +499,39 @@ class Ovld:
         This will also lock this ovld's parent mixins to prevent their
         modification.
         """
+        try:
+            self._compile()
+        except BaseException:
+            # Never leave a half-built function in service: go back to the
+            # "not built yet" state, so that the next use starts over (and
+            # fails again if a registered method is invalid)
+            self._compiled = False
+            if hasattr(self, "dispatch"):
+                boot = bootstrap_dispatch(self, name=self.shortname)
+                self.dispatch.__code__ = boot.__code__
+                self.dispatch.__defaults__ = None
+                self.dispatch.__kwdefaults__ = None
+            raise
+
+    def _compile(self):
         self._lock_unlinked_ancestors()
 
         if self.name is None:
             self.name = self.__name__ = f"ovld{self.id}"
 
         name = self.__name__
+        self._compiled = False
         self.map = MultiTypeMap(name=name, key_error=self._key_error)
 
         self.analyze_arguments()
         dispatch = generate_dispatch(self, self.argument_analysis)
         if not hasattr(self, "dispatch"):
             self.dispatch = bootstrap_dispatch(self, name=self.shortname)
+
+        # Fill the table before the entry point that reads it is put in service
+        for key, fn in list(self.defns.items()):
+            self.register_signature(key, fn)
+
         self.dispatch.__code__ = rename_code(dispatch.__code__, self.shortname)
         self.dispatch.__kwdefaults__ = dispatch.__kwdefaults__
         self.dispatch.__annotations__ = dispatch.__annotations__
@@ -518,9 +539,6 @@ class Ovld:
         self.dispatch.__globals__.update(dispatch.__globals__)
         self.dispatch.map = self.map
         self.dispatch.__doc__ = self.mkdoc()
-
-        for key, fn in list(self.defns.items()):
-            self.register_signature(key, fn)
 
         self._compiled = True
 
